@@ -386,6 +386,12 @@ C05_Clauses(cfg, S) ==
    noFakeSuccess |-> \A j \in 1..Len(S) : (Cancelled(S[j]) /\ HasRet(S[j]) /\ ~RetOf(S[j]).iserr) =>
                      /\ B(j) # <<>> /\ Last(B(j)).posts # <<>> /\ Last(B(j)).posts[1].out = "ok"
                      /\ PathHolds(cfg, S[j]),
+   \* an attempt that fails after the cancellation ends the retry loop: the remaining budget is not "recovered"
+   \* by the fallback (that would turn a run that was cut short into a success)
+   noFallbackRecovery |-> \A j \in 1..Len(S) : CancelIdx(S[j]) # 0 =>
+                     \A i \in 1..Len(B(j)) : LET b == B(j)[i] IN
+                        (b.fbs # <<>> /\ NodeOf(cfg, b.node).kind = "leaf" /\ BlockEnd(S[j], i) >= CancelIdx(S[j]))
+                           => Len(b.execs) = BudgetOf(cfg, b.node),
    \* a run reporting an error after a cancellation reports the context's error
    \* (or the error of the callback that ended it)
    ctxErr     |-> \A j \in 1..Len(S) : Cancelled(S[j]) =>
@@ -406,6 +412,10 @@ C10_Clauses(cfg, S) ==
    hpath     |-> \A j \in 1..Len(S) : PathHolds(cfg, S[j]),
    \* ... which is what the equivalent flattened state machine does
    flattened |-> \A j \in 1..Len(S) : FlatAgrees(cfg, S[j]),
+   \* an inner flow that ends by error ends the whole arrangement with that very error (same value outside as inside)
+   innerError |-> \A j \in 1..Len(S) : (~Cancelled(S[j]) /\ HasRet(S[j]) /\ S[j].blocks # <<>>) =>
+                     LET b == Last(S[j].blocks) IN
+                     (NodeOf(cfg, b.node).kind = "leaf" /\ Failed(b)) => RetOf(S[j]).iserr /\ FailTok(b) \in Range(RetOf(S[j]).errs),
    \* every leaf, at any depth, works on the store given to the top-level run
    sameStore |-> \A j \in 1..Len(S) : \A i \in 1..Len(S[j].cbs) :
                      S[j].cbs[i].ev \in {"prep", "post"} => S[j].cbs[i].sok
